@@ -15,8 +15,11 @@ def parse_rust_line(line, en):
     nb = int(re.search(r'num_bits: (\d+)', fin).group(1))
     st = re.search(r'scancode_set: \w+ \{ state: (\w+)', fin).group(1)
     bits = 0
+    # the decoder's own modifier record (the first one printed), not copies held in other fields
+    mm = re.search(r'modifiers: Modifiers \{([^}]*)\}', fin)
+    mods = mm.group(1) if mm else fin
     for i, f in enumerate(FIELDS):
-        if re.search(r'\b%s: true' % f, fin):
+        if re.search(r'\b%s: true' % f, mods):
             bits |= 1 << i
     hc = re.search(r'handle_ctrl: (\w+)', fin).group(1)
     return results, [reg, nb, en['DecodeState'].index(st), bits, en['HandleControl'].index(hc)]
